@@ -227,7 +227,7 @@ def violText (names : Array String) : Viol → String
   | .newflowBeforeAnnouncement f => s!"causality_newflow_before_announcement: a trace of flow F{f} precedes the FlowTrace that announces it"
   | .flowBeforeNewflow f => s!"causality_flow_before_newflow: flow F{f} sends a FlowTrace or terminates before its NewFlowTrace"
   | .leaveBeforeVisit n => s!"causality_leave_before_visit: node {names[n]?.getD "?"} is left more often than it was visited"
-  | .traceAfterTermination f => s!"causality_trace_after_termination: flow F{f} has a trace after its TerminationTrace"
+  | .traceAfterTermination f => s!"causality_trace_after_termination: flow F{f} has a trace after its TerminationTrace / CancellationFlowTrace"
   | .ceaseNotLast => "cease_not_last: a flow trace follows the CeaseFlowTrace"
 
 def flowNo (w : String) : Option Nat := if w.startsWith "F" then (w.drop 1).toNat? else none
@@ -288,6 +288,10 @@ def checkGrammar (_params : List String) (lines : List String) : CaseResult := I
     | "obs" :: "term" :: f :: _ =>
       match flowNo f with
       | some f => ts := ts.push (.term f)
+      | none => r := { r with bad := s!"line {n}: {ln}" :: r.bad }
+    | "obs" :: "cancelflow" :: f :: _ =>
+      match flowNo f with
+      | some f => ts := ts.push (.cancel f)
       | none => r := { r with bad := s!"line {n}: {ln}" :: r.bad }
     | ["obs", "cease"] => ts := ts.push .cease
     | "obs" :: "final" :: _ => pure ()
